@@ -207,13 +207,13 @@ pub fn witness_shiftor() {
 inst_noalloc!(na_memmem_n0, [props=C17 tier=quick cfg=x86std t=1500 role=noalloc-memmem uw=@RK;@TWNEW;@TWOFF;with_ranker:6;oracle:6;@PP;@MEMCHR;find_prefilter.0:2;clone:6;from:6], 3, all_memmem::<0, 8>(1, 0));
 inst_noalloc!(na_memmem_n1, [props=C17 tier=thorough cfg=x86std t=1500 role=noalloc-memmem uw=@RK;@TWNEW;@TWOFF;with_ranker:6;oracle:6;@PP;@MEMCHR;find_prefilter.0:2;clone:6;from:6], 3, all_memmem::<1, 6>(1, 0));
 inst_noalloc!(na_memmem_n2_fwd, [props=C17 tier=quick cfg=x86std t=1500 role=noalloc-memmem uw=@RK;@TWNEW;@TWOFF;with_ranker:6;oracle:6;@PP;@MEMCHR;find_prefilter.0:2;clone:6;from:6], 3, all_memmem::<2, 6>(1, 0));
-inst_noalloc!(na_memmem_n2_nosimd, [props=C17 tier=thorough cfg=x86std t=1500 role=noalloc-memmem uw=@RK;@TWNEW;@TWOFF;with_ranker:6;oracle:6;@PP;@MEMCHR;find_prefilter.0:2;clone:6;from:6], 3, all_memmem::<2, 6>(0, 0));
+inst_noalloc!(na_memmem_n2_nosimd, [props=C17 tier=manual cfg=x86std t=1500 role=noalloc-memmem uw=@RK;@TWNEW;@TWOFF;with_ranker:6;oracle:6;@PP;@MEMCHR;find_prefilter.0:2;clone:6;from:6], 3, all_memmem::<2, 6>(0, 0));
 inst_noalloc!(na_memchr_g0_12, [props=C17 tier=quick cfg=x86std+x86log t=1800 role=noalloc-memchr uw=byte_by_byte:34;all::memchr::One::count_raw.0:67;all::memchr:10;find_raw.0:3;find_raw.1:4;count_raw.0:3;count_raw.1:4], 3, all_memchr::<12>(0));
 inst_noalloc!(na_memchr_g1_12, [props=C17 tier=thorough cfg=x86std t=1800 role=noalloc-memchr uw=byte_by_byte:34;all::memchr::One::count_raw.0:67;all::memchr:10;find_raw.0:3;find_raw.1:4;count_raw.0:3;count_raw.1:4], 3, all_memchr::<12>(1));
 inst_noalloc!(na_memchr_g2_12, [props=C17 tier=quick cfg=x86std t=1800 role=noalloc-memchr uw=byte_by_byte:34;all::memchr::One::count_raw.0:67;all::memchr:10;find_raw.0:3;find_raw.1:4;count_raw.0:3;count_raw.1:4], 3, all_memchr::<12>(2));
 inst_noalloc!(na_memchr_g3_12, [props=C17 tier=quick cfg=x86std t=1800 role=noalloc-memchr uw=byte_by_byte:34;all::memchr::One::count_raw.0:67;all::memchr:10;find_raw.0:3;find_raw.1:4;count_raw.0:3;count_raw.1:4], 3, all_memchr::<12>(3));
 inst_noalloc!(na_memchr_g0_34, [props=C17 tier=quick cfg=x86std t=1800 role=noalloc-memchr uw=byte_by_byte:34;all::memchr::One::count_raw.0:67;all::memchr:10;find_raw.0:3;find_raw.1:4;count_raw.0:3;count_raw.1:4], 3, all_memchr::<34>(0));
-inst_noalloc!(na_memchr_g1_34, [props=C17 tier=thorough cfg=x86std t=3600 role=noalloc-memchr uw=byte_by_byte:34;all::memchr::One::count_raw.0:67;all::memchr:10;find_raw.0:3;find_raw.1:4;count_raw.0:3;count_raw.1:4], 3, all_memchr::<34>(1));
+inst_noalloc!(na_memchr_g1_34, [props=C17 tier=manual cfg=x86std t=3600 role=noalloc-memchr uw=byte_by_byte:34;all::memchr::One::count_raw.0:67;all::memchr:10;find_raw.0:3;find_raw.1:4;count_raw.0:3;count_raw.1:4], 3, all_memchr::<34>(1));
 inst_noalloc!(na_long_f0_40, [props=C17 tier=quick cfg=x86std t=1800 role=noalloc-long-needle uw=@LONGNEW;_imp.:35;oracle:35], 4, long_needle_noalloc::<40>(0));
 inst_noalloc!(na_memmem_iters_n0, [props=C17 tier=quick cfg=x86std t=1500 role=noalloc-memmem-iterators uw=@RK;@TWNEW;@TWOFF;with_ranker:6;oracle:6;@PP;@MEMCHR;find_prefilter.0:2;clone:6;from:6], 3, all_memmem::<0, 5>(1, 1));
 inst_noalloc!(na_memmem_iters_n2, [props=C17 tier=thorough cfg=x86std t=1500 role=noalloc-memmem-iterators uw=@RK;@TWNEW;@TWOFF;with_ranker:6;oracle:6;@PP;@MEMCHR;find_prefilter.0:2;clone:6;from:6], 3, all_memmem::<2, 4>(1, 1));
